@@ -139,7 +139,8 @@ public:
             p["api"] = w.pick<std::string>({"public", "common"});
             // blind-spot configuration (as in C17): with 1000 or more loaded points finished samples wait in the CompleteStorage
             // instead of being loaded one by one, candidates are refreshed while samples are stored but not loaded
-            if (w.chance(0.04)) { p["large"] = w.pick<std::string>({"localp", "semi-localp", "fourier"}); p["budget_extra"] = w.range(3, 40); p["jobs"] = w.range(2, 5); p["batch"] = w.pick<int>({1, 2, 3, 4}); p["limit"] = 9; p["tol"] = 1e-6; }
+            if (w.chance(0.04)) { p["large"] = w.pick<std::string>({"localp", "semi-localp", "fourier"}); p["budget_extra"] = w.pick<int>({3, 8, 20, 40, 80}); p["jobs"] = w.range(2, 5); p["batch"] = w.pick<int>({1, 1, 2, 3, 4}); p["limit"] = 9;
+                                   p["tol"] = w.pick<double>({1e-1, 1e-2, 1e-3, 1e-4, 1e-6}); } // a coarse tolerance keeps the candidate list short: refreshes while samples wait in the storage
         }
         p["model_fills_in_place"] = w.chance(0.4); // the model writes y[i] relying on the documented size of y instead of assigning the vector
         p["latency"] = l.pick<std::string>({"zero", "zero", "uniform", "uniform", "heavy", "slow-one", "equal"});
